@@ -14,6 +14,9 @@ COMPONENTS = {
     "spnn": "comp_spacing:Spnn",
     "crowd3": "comp_crowd",
     "trunc": "comp_trunc",
+    "repro": "comp_runs:Repro",
+    "resume": "comp_runs:Resume",
+    "stats": "comp_stats",
 }
 
 TRUSTED_BASE = [
@@ -154,5 +157,31 @@ PROPERTIES = {
         "rule": "single non-dominated fronts of 2M+2..36 points (thorough ..120), 2..4 objectives (continuous simplex / sphere fronts, grid-valued, constant objective, tied extremes, duplicates, badly scaled), truncated by RankAndCrowding to n_survive in [2M, N) (two thirds) or [1, N), five metrics, compiled engine in-process (pcd with >= 3 objectives only where the kernel model predicts no out-of-bounds index), a third also in the pure-Python engine in a worker process with the same seed; plus the mixed-front survival records of C03; distinct = hash; non-trivial = a front was cut",
         "explanation": "theorems take_keeps_top, boundary_retained, cdSorted_top_count, dropped_smallest (+ C13 extremes / well-formedness); the n_remove forwarded to the crowding function and the crowding values it returned are checked against the Lean metric models inside every survival record; the dropped set is compared with an independent one-at-a-time pruning reference on tie-free fronts (greedy equivalence is not proved: partial)",
         "assumptions": ["descending argsort contract (checked on every record)", "greedy-pruning equivalence rests on the reference comparison, not on a theorem"],
+    },
+    "C17": {
+        "components": [("repro", 160, 4000), ("gen", 120, 3000)],
+        "parallel": True,
+        "level_text": "PARTIAL. Lean theorems over the run model (a run is a fold of a pure step: composition over splits of the draw stream, independence from the order / batching of external evaluation); that the real algorithm object has no more state than the model's is checked, not proved: ",
+        "rule": "runs of DE, NSDE, GDE3(+MNN/2NN/P), NSDE-R and the generic base classes (3..6 generations, configurations as for C05-C08, optionally with a stateful user mutation, a user repair callable or a user CrowdingDiversity)" + ", each executed twice along different histories and compared generation by generation bit for bit: same seed repeated; after an unrelated run built from the same shared default objects with the same population size and other parameters; minimize() vs ask-and-tell; external one-by-one evaluation in a random order by a separate evaluator; next() vs ask/tell; with save_history; interleaved with another instance on its own generator state; in a fresh interpreter vs in-process after other work; plus the generation records of C05-C08 (next population = model step on the recorded draws and oracles). distinct = hash of the configuration; non-trivial = the run completed",
+        "explanation": "theorems run_split, run_deterministic, next_eq_ask_eval_tell, evalInOrder_get, eval_order_irrelevant, eval_orders_agree",
+        "assumptions": ["NumPy's Mersenne Twister, its seeding by Algorithm.setup and process-level state of third-party modules are not modelled",
+                        "random sources other than numpy's global generator are detected by tripwires on random.* and default_rng only when called during a recorded step"],
+    },
+    "C18": {
+        "components": [("resume", 90, 2500), ("gen", 60, 1500)],
+        "parallel": True,
+        "level_text": "PARTIAL. Lean theorems over the run model (resume = uninterrupted run for every split point given restore . snapshot = id; history recording is neutral); restore . snapshot = id for pickle / dill / deepcopy of the real object graph is checked at every generation index, not proved: ",
+        "rule": "runs of DE, NSDE, GDE3(+MNN/2NN/P), NSDE-R and the generic base classes (3..6 generations, configurations as for C05-C08, optionally with a stateful user mutation, a user repair callable or a user CrowdingDiversity)" + ", checkpointed with pickle / dill / copy.deepcopy together with numpy.random.get_state() after EVERY generation while the original keeps running; every copy is compared with the original at that time, resumed with the saved generator state, and all later populations and the reported optimum are compared bit for bit with the uninterrupted run; a third of the runs also with save_history=True vs False. non-trivial = at least two interruption points",
+        "explanation": "theorems resume_eq, resume_any_point, resume_twice, history_neutral, history_length",
+        "assumptions": ["the pickle protocol and object graphs are not modelled", "the generator state saved is numpy's global one"],
+    },
+    "C19": {
+        "components": [("stats", 52, 260), ("mask", 300, 8000), ("dex", 200, 6000), ("dem", 300, 8000), ("des", 300, 8000), ("repair", 200, 6000)],
+        "gen_args_thorough": {"stats": {"n_samples": 200000}},
+        "parallel": True,
+        "level_text": "PARTIAL. Lean theorems give each outcome as an exact event of NumPy's primitives (coordinate taken iff its draw < CR, block length >= k iff the first k draws < CR, dither / jitter / bounce-back / rand-init are affine bijections of [0,1) onto the stated segment, re-selection keeps the first admissible candidate and admissible values are exchangeable); that NumPy's primitives are i.i.d. uniform is trusted; ",
+        "rule": OPS_RULE + "any record; plus exact finite-sample tests on the real operators (13 kinds: binomial marginals / pairs / forced coordinate, exponential block length and start, dither, one scale factor per mating and difference, default F, jitter, parent columns and triples, bounce-back, rand-init) with 2e4 (thorough 2e5) samples each, every comparison at level 1e-13 (exact binomial tails, DKW bound), < 1e4 comparisons per run => false-alarm probability <= 1e-9",
+        "explanation": "theorems bin_event, forced_only_when_empty, exp_len_event, dither_strict_mono / _onto / _into, jitter_strict_mono / _onto, bounce_low_affine / _onto, bounce_up_affine, randinit_low_onto / _up_onto, redraw_keeps_admissible, first_admissible_exchange; correspondence: masks, scale factors, repaired coordinates and parent matrices equal the model on the recorded draws, call signatures included",
+        "assumptions": ["numpy.random primitives are i.i.d. uniform (trusted)", "statistical tests have total false-alarm probability <= 1e-9 by construction"],
     },
 }
